@@ -156,6 +156,10 @@ def eval_history(case):
             V.append(Violation('labels.line_count', case, {'expected': len(lines), 'observed': len(shown)}))
         else:
             check_labels(s, shown, exps, case, V)
+            if not V and len(case.get('history', [])) % 2 == 0:
+                # the same queries with an output filter active: a label used as a matcher still selects its own lines only
+                s.cmd('filter wl_registry')
+                check_labels(s, shown, exps, case, V)
     except Exception:
         V.append(sut.exc_violation(case))
     return Eval(V, outcome=len(V), nontrivial=hc.nontrivial(case.get('history', [])) or 'scripts' in case,
@@ -165,6 +169,11 @@ def eval_history(case):
 def gen_histories(tier):
     depth = 3 if tier == 'quick' else 4
     variant = hc.VARIANTS['client']
+    # server-side logs too (delete_id is sent there)
+    sv = hc.VARIANTS['server']
+    for h in ([['creq', 3, 'wl_callback'], ['del', 3], ['creq', 3, 'wl_callback'], ['del', 3], ['creq', 3, 'wl_callback'], ['use', 3]],
+              [['creq', 3, 'zz_a'], ['ment', 3], ['del', 3], ['creq', 3, 'wl_callback'], ['foreign', 3]]):
+        yield {'history': h, 'variant': sv}
 
     def rec(hist, d):
         yield {'history': [list(e) for e in hist], 'variant': variant}
